@@ -94,6 +94,99 @@ def read_error():
 
 
 # ---------------------------------------------------------------------------
+# cooperative locks: a change under test may add threading.Lock()s to the
+# library.  A real lock held by a parked client would block the baton holder
+# in the OS; the library therefore sees simulated locks whose acquire is an
+# intercepted synchronisation point.
+
+import threading as _threading
+
+_RealLock = _threading.Lock
+_RealRLock = _threading.RLock
+
+
+class LibraryDeadlock(Exception):
+    """All simulated clients wait for locks held by each other."""
+
+
+class SimLock:
+    reentrant = False
+
+    def __init__(self):
+        self.owner = None
+        self.count = 0
+
+    def _me(self):
+        cl = current_client()
+        return ("client", cl.idx) if cl is not None else ("thread", _threading.get_ident())
+
+    def acquire(self, blocking=True, timeout=-1):
+        me = self._me()
+        cl = current_client()
+        if cl is not None and cl.op is not None:
+            cl.on_sync("acquire")
+        if self.owner is None:
+            self.owner, self.count = me, 1
+            return True
+        if self.reentrant and self.owner == me:
+            self.count += 1
+            return True
+        if not blocking or (timeout is not None and timeout >= 0):
+            return False
+        if cl is None or cl.op is None:
+            raise RuntimeError("[sim] lock held by %r would block a non-simulated thread forever"
+                               % (self.owner,))
+        cl.wait_for(lambda: self.owner is None)
+        self.owner, self.count = me, 1
+        return True
+
+    def release(self):
+        if self.owner is None:
+            raise RuntimeError("release unlocked lock")
+        self.count -= 1
+        if self.count == 0:
+            self.owner = None
+
+    def locked(self):
+        return self.owner is not None
+
+    def __enter__(self):
+        self.acquire()
+        return True
+
+    def __exit__(self, *a):
+        self.release()
+
+
+class SimRLock(SimLock):
+    reentrant = True
+
+
+class _ThreadingProxy:
+    """`threading` as the library sees it."""
+    Lock = SimLock
+    RLock = SimRLock
+
+    def __getattr__(self, name):
+        return getattr(_threading, name)
+
+
+_threading_proxy = _ThreadingProxy()
+
+
+def _patch_library_locks(mods):
+    for m in mods:
+        d = m.__dict__
+        for k, v in list(d.items()):
+            if v is _threading:
+                d[k] = _threading_proxy
+            elif v is _RealLock:
+                d[k] = SimLock
+            elif v is _RealRLock:
+                d[k] = SimRLock
+
+
+# ---------------------------------------------------------------------------
 # fresh library state
 
 _ORDER = [
@@ -130,17 +223,25 @@ def fresh_library(patch_stream=False):
             f = getattr(sys.modules[name], "__file__", None)
             if f and f.endswith(".py"):
                 extra.append(name)   # modules added by a change under test
-    for name in extra + _ORDER:
-        m = sys.modules.get(name)
-        if m is None:
-            continue
-        co = _code.get(name)
-        if co is None:
-            with open(m.__file__, "rb") as f:
-                src = f.read()
-            co = compile(src, m.__file__, "exec", dont_inherit=True)
-            _code[name] = co
-        exec(co, m.__dict__)
+    mods = []
+    # module-level locks are created while the bodies execute
+    _threading.Lock, _threading.RLock = SimLock, SimRLock
+    try:
+        for name in extra + _ORDER:
+            m = sys.modules.get(name)
+            if m is None:
+                continue
+            co = _code.get(name)
+            if co is None:
+                with open(m.__file__, "rb") as f:
+                    src = f.read()
+                co = compile(src, m.__file__, "exec", dont_inherit=True)
+                _code[name] = co
+            exec(co, m.__dict__)
+            mods.append(m)
+    finally:
+        _threading.Lock, _threading.RLock = _RealLock, _RealRLock
+    _patch_library_locks(mods)
     L.orig_resource_stream = L.coeffs.__dict__.get("resource_stream")
     if patch_stream and L.orig_resource_stream is not None:
         L.coeffs.resource_stream = make_resource_stream(L.orig_resource_stream)
